@@ -109,16 +109,23 @@ def cases(ctx):
     for i in range(4):
         for form in ("list", "tuple", "iter", "generator"):
             yield ("extra", i, form)
+    # the component a call produces belongs to that call: what a caller does to it afterwards (edit its tags, its content)
+    # must not show in the component of a later call on the same or another file
+    for edit in ("add-tag", "drop-reboot", "change-enc", "clear", "blob-replaced"):
+        for target in ("same-file", "other-file"):
+            if edit == "clear" and target == "same-file":
+                continue      # without its type tag the old component is no configuration any more: it would rightly be kept
+            yield ("later", edit, target)
 
 
-def check(o, conf, extra=(), extra_form="list"):
+def check(o, conf, extra=(), extra_form="list", file=None):
     exp = T.expected_ops(conf)
     try:
         live = dict(conf)          # ONE dictionary object handed to every call, as a caller would
         # the parameter is declared Iterable[bytes]: lists, tuples, iterators and generators must all be honoured
         extra_live = {"list": list(extra), "tuple": tuple(extra), "iter": iter(list(extra)), "generator": (b for b in list(extra))}[extra_form]
         blocks_direct = conf_dict_to_tlv(live)
-        f = Bf3File({}, [])
+        f = Bf3File({}, []) if file is None else file
         if extra:
             f.set_config(live, extra_live)
         else:
@@ -195,8 +202,37 @@ def sorted_first(conf):
     return next(iter(conf.items()))
 
 
+def run_later(case):
+    _, edit, target = case
+    o = Outcome("ok", True)
+    c1 = {(0x0101, 0x01): b"\x11\x22", (0x0102, None): None}
+    c2 = {(0x0201, 0x05): b"\x33" * 20, (0x0101, 0x02): None}
+    f1 = Bf3File({}, [])
+    f1.set_config(dict(c1))
+    comp = f1.components[-1]
+    if edit == "add-tag":
+        comp.description[0xC7] = b"\x00\x9b"
+    elif edit == "drop-reboot":
+        comp.description.pop(0xC5, None)
+    elif edit == "change-enc":
+        comp.description[0xC2] = b"\x00"
+    elif edit == "clear":
+        comp.description.clear()
+    else:
+        comp.blob = b"\x00"
+    f = f1 if target == "same-file" else Bf3File({}, [])
+    o2 = check(Outcome("ok", True), c2, file=f)
+    for fp, msg, detail in o2.viols:
+        o.viol("later|" + fp, "after a caller edited the component of an earlier call (%s), a later set_config on %s: %s" % (edit, target, msg))
+    if len(f.components) != 1:
+        o.viol("later|component-count", "%d components after the later call" % len(f.components))
+    return o
+
+
 def run_case(ctx, case):
     kind = case[0]
+    if kind == "later":
+        return run_later(case)
     if kind == "dict":
         U = universe()
         conf = {}
